@@ -23,7 +23,7 @@ Qed.
 Theorem truncated_end_to_end (hash : list N -> N) (evalid tvalid : N -> bool) c jr hr (data : list N) (ns : list N) nframes rbuf sched (k : nat) :
   cfg_ok evalid tvalid c ->
   (h_ck c = 1 -> forall l, hash l < 2 ^ 32) -> (h_ck c = 2 -> forall l, hash l < 2 ^ 64) ->
-  h_bsize c <= 8388608 -> bytes_ok data -> (length data < nframes)%nat -> 0 < jr -> 0 < rbuf -> rbuf mod 8 = 0 ->
+  bytes_ok data -> (length data < nframes)%nat -> 0 < jr -> 0 < rbuf -> rbuf mod 8 = 0 ->
   let B := h_bsize c in
   let stream := write_stream hash c (chunks B data) in
   (k < length stream)%nat ->
@@ -34,12 +34,13 @@ Theorem truncated_end_to_end (hash : list N -> N) (evalid tvalid : N -> bool) c 
     (exists m, concat (map fst out) = firstn m (range_bytes B 0 0 data)) /\
     (forall l1 x l2, out = l1 ++ x :: l2 -> snd x = RErr -> Forall (fun y => y = ([], RErr)) l2).
 Proof.
-  intros Hc H32 H64 H8 Hd Hnf Hjr Hr Hr8 B stream Hk.
+  intros Hc H32 H64 Hd Hnf Hjr Hr Hr8 B stream Hk.
+  assert (H8 : B <= 1073741824) by (destruct (bs_ok _ _ _ Hc) as [[_ X] _]; unfold MAX_BLOCK in X; exact X).
   assert (HB : 0 < B) by (destruct (bs_ok _ _ _ Hc) as [[X _] _]; unfold MIN_BLOCK in X; unfold B; lia).
   destruct (chunks_f_ok B HB (length data) data Hd) as [Hok Hlen]. fold (chunks B data) in Hok, Hlen.
   set (blocks := chunks B data) in *.
   assert (Hbl : Forall (blk_ok B) blocks).
-  { eapply Forall_impl; [|exact Hok]. intros x (X1 & X2 & X3). unfold blk_ok. repeat split; try assumption. unfold B in X2. lia. }
+  { eapply Forall_impl; [|exact Hok]. intros x (X1 & X2 & X3). unfold blk_ok. repeat split; try assumption. lia. }
   destruct (container_truncated hash evalid tvalid c Hc H32 H64 blocks nframes rbuf sched k Hbl ltac:(lia) Hr Hr8 Hk) as [E|(j & Hj & E)]; [left; exact E|].
   right. eexists. split; [exact E|]. cbv zeta.
   rewrite map_app, map_map. cbn [map frame_of].
